@@ -1908,6 +1908,101 @@ def task_genotype_reader_wiring(scratch, tier, seed, logdir):
     return out
 
 
+PMF_NATIVE_TEST = r"""
+    #[test]
+    fn kv_binomial_and_pmf_against_exact() {
+        fn exact(n: u64, k: u64) -> f64 {
+            if k > n {
+                return 0.0;
+            }
+            let k = k.min(n - k);
+            (1..=k).fold(1.0f64, |acc, i| acc * (n - k + i) as f64 / i as f64)
+        }
+        fn close(a: f64, b: f64) -> bool {
+            (a - b).abs() <= 1e-9 * b.abs().max(1e-300)
+        }
+        for n in (0..=60u64).chain([100, 150, 169, 170, 171, 172, 173, 180, 200, 250, 340, 341, 400, 1000]) {
+            for k in (0..=6u64).chain([n / 3, n / 2, n.saturating_sub(2), n.saturating_sub(1), n, n + 1]) {
+                let got = binomial(n, k);
+                let want = exact(n, k);
+                assert!(close(got, want), "binomial({n}, {k}) = {got}, exact {want}");
+            }
+        }
+        for (size, successes, draws) in [(6u64, 2u64, 4u64), (20, 7, 10), (170, 60, 20), (171, 60, 20), (180, 90, 170), (200, 100, 10), (400, 150, 30)] {
+            let mut sum = 0.0;
+            for observed in 0..=draws + 1 {
+                let got = hypergeometric_pmf(size, successes, draws, observed);
+                let want = if observed > draws || observed > successes || draws - observed > size - successes {
+                    0.0
+                } else {
+                    exact(successes, observed) * exact(size - successes, draws - observed) / exact(size, draws)
+                };
+                assert!(close(got, want) || (want == 0.0 && got == 0.0), "pmf({size},{successes},{draws},{observed}) = {got}, exact {want}");
+                sum += got;
+            }
+            assert!((sum - 1.0).abs() < 1e-9, "pmf({size},{successes},{draws},.) sums to {sum}");
+        }
+    }
+"""
+
+
+def task_pmf_wiring(scratch, tier, seed, logdir):
+    """C02 / C03 / C06 / C11: the Kani harnesses replace the hypergeometric pmf by a table (its
+    numerics are floating-point ln/exp).  What is decidable about it is its structure over uninterpreted
+    ln / exp / floor / ln_gamma: pmf = C(K,k) C(N-K,n-k) / C(N,n) (0 when k > n),
+    C(n,k) = floor(0.5 + exp(lnf(n) - lnf(k) - lnf(n-k))) (0 when k > n),
+    lnf(x) = ln(table[x]) inside the table, ln_gamma(x + 1) beyond it, the table holds at most 171
+    entries (171! is not an f64) and is built as t[i] = t[i-1] * i."""
+    fns = fns_for(scratch, "sfs-core")
+    ob = Ob("pmf_wiring", ["utils::hypergeometric_pmf", "utils::binomial", "utils::factorial::ln_factorial (+ closures)", "utils::factorial::precomputed (+ closures)"],
+            "every path; ln, exp, floor, ln_gamma uninterpreted: the identities are structural, their floating-point accuracy is outside")
+    bad = lambda msg: ob.fail("violation", msg)
+    try:
+        def rets(pat, args):
+            f = mir.find_fn(fns, pat)
+            ps = [p for p in mir.Exec(f, [], max_paths=200).run(args) if p.end == "return"]
+            ob.d["queries"] += len(ps)
+            return f, ps
+        _, ps = rets(r"^hypergeometric_pmf$", {"_1": V("N", "int"), "_2": V("K", "int"), "_3": V("n", "int"), "_4": V("k", "int")})
+        got = sorted((tuple((show(t), c) for t, c in p.state.pc), show(p.ret)) for p in ps)
+        want = sorted([((("Gt(k, n)", ("eq", "0")),), "Div(Mul(binomial(K, k), binomial(Sub(N, K), Sub(n, k))), binomial(N, n))"),
+                       ((("Gt(k, n)", ("notin", ("0",))),), "0.0")])
+        if got != want:
+            bad("hypergeometric_pmf is not [k > n -> 0; C(K,k)*C(N-K,n-k)/C(N,n)]: " + "; ".join(f"{pc} => {r}" for pc, r in got)[:300])
+        _, ps = rets(r"^binomial$", {"_1": V("n", "int"), "_2": V("k", "int")})
+        got = sorted((tuple((show(t), c) for t, c in p.state.pc), show(p.ret)) for p in ps)
+        want = sorted([((("Gt(k, n)", ("eq", "0")),), "f64::<impl f64>::floor(Add(0.5, f64::<impl f64>::exp(Sub(Sub(ln_factorial(n), ln_factorial(k)), ln_factorial(Sub(n, k))))))"),
+                       ((("Gt(k, n)", ("notin", ("0",))),), "0.0")])
+        if got != want:
+            bad("binomial is not [k > n -> 0; floor(0.5 + exp(lnf(n) - lnf(k) - lnf(n-k)))]: " + "; ".join(f"{pc} => {r}" for pc, r in got)[:300])
+        f, ps = rets(r"^ln_factorial$", {"_1": V("x", "int")})
+        r = show(ps[0].ret) if len(ps) == 1 else ""
+        if not re.fullmatch(r"Option::<f64>::unwrap_or_else::<\{closure@[^}]*\}>\(Option::<&f64>::map::<f64, \{closure@[^}]*\}>\(core::slice::<impl \[f64\]>::get::<usize>\(precomputed\(\), int_cast\(x, usize\)\), ZeroSized: \{closure@[^}]*\}\), closure\{closure@[^}]*\}\{x\}\(&_1\)\)", r):
+            ob.fail("inconclusive", "ln_factorial: unrecognised form " + r[:200])
+        _, ps = rets(r"^ln_factorial::\{closure#0\}$", {"_1": V("cl", "U"), "_2": ("ref", "$p"), "$p": V("entry", "real")})
+        if [show(p.ret) for p in ps] != ["f64::<impl f64>::ln(entry)"]:
+            bad("inside the table ln_factorial is not ln(table[x]): " + str([show(p.ret) for p in ps])[:200])
+        _, ps = rets(r"^ln_factorial::\{closure#1\}$", {"_1": V("cl", "U")})
+        if [show(p.ret) for p in ps] != ["ln_gamma(Add(to_real(deref(field(cl, 0))), 1.0))"]:
+            bad("beyond the table ln_factorial(x) is not ln_gamma(x + 1): " + str([show(p.ret) for p in ps])[:200])
+        pf = mir.find_fn(fns, r"^precomputed$")
+        m = re.search(r"&\[f64; (\d+)\]", pf.ret or pf.header)
+        if not m:
+            ob.fail("inconclusive", "table length not found")
+        elif int(m.group(1)) > 171:
+            bad(f"the factorial table has {m.group(1)} entries: 171! and beyond are not finite f64 values")
+        cf = mir.find_fn(fns, r"^precomputed::\{closure#0\}::\{closure#0\}$")
+        ps = [p for p in mir.Exec(cf, [], max_paths=50).run({"_1": V("cl", "U"), "_2": V("acc", "real"), "_3": ("tup", (V("i", "int"), ("ref", "$slot"))), "$slot": V("slot", "real")}) if p.end == "return"]
+        if len(ps) != 1 or show(ps[0].ret) != "Mul(acc, to_real(i))" or show(ps[0].state.env.get("$slot")) != "Mul(acc, to_real(i))":
+            ob.fail("inconclusive" if len(ps) != 1 else "violation", "table step is not t[i] = acc * i, returned as the next acc: " + "; ".join(show(p.ret) for p in ps)[:200])
+        ob.d["nonvacuous"] = True
+        if ob.d["status"] == "violation":
+            ob.d["native_test"] = dict(crate="sfs-core", file="core/src/utils.rs", name="kv_binomial_and_pmf_against_exact", code=PMF_NATIVE_TEST)
+    except (LookupError, ValueError, RuntimeError, KeyError, IndexError, AttributeError) as e:
+        ob.fail("inconclusive", f"translator: {type(e).__name__}: {e}")
+    return [ob.done()]
+
+
 def task_main_exit(scratch, tier, seed, logdir):
     """C10 / C16 / C17: main maps every Err of run() to a message on stderr and exit status 1."""
     fns = fns_for(scratch, "sfs-cli")
@@ -1994,6 +2089,7 @@ TASKS = {
     "translator_validation": task_translator_validation,
     "read_site_wiring": task_read_site_wiring,
     "genotype_reader_wiring": task_genotype_reader_wiring,
+    "pmf_wiring": task_pmf_wiring,
     "shape_closures": task_shape_closures,
 }
 
